@@ -17,6 +17,11 @@ class Unsupported(Exception):
     pass
 
 
+class SolverUnknown(Exception):
+    """a deciding query (asked by an obligation after exploration) got no verdict: the obligation is undecided"""
+    pass
+
+
 # ------------------------------------------------------------------ values
 class I:
     """integer: z3 bit-vector + signedness"""
@@ -185,6 +190,8 @@ class Executor:
         self.fresh_counter = itertools.count()
         self.solver = z3.Solver()
         self.solver.set("timeout", 20000)
+        self._exploring = 0
+        self._unknown_marks = set()
         self.models = models or []
         self.stats = dict(paths=0, forks=0, solver_checks=0, solver_time=0.0, unsupported=0)
         self.on_call = None  # hook(state, callee, args) -> None | value
@@ -282,9 +289,24 @@ class Executor:
         self.stats["solver_checks"] += 1
         self.stats["solver_time"] += time.time() - t
         if r == z3.unknown:
-            # feasibility only prunes: keeping a path that might be infeasible is sound (the
-            # deciding queries are asked again on it, with their own verdict)
+            # a subset of the constraints that is unsatisfiable refutes the whole set: try the newest constraint on its own
+            last = extra if extra is not None else (pc[-1] if pc else None)
+            if last is not None:
+                s2 = z3.Solver()
+                s2.set("timeout", 20000)
+                s2.add(last)
+                if s2.check() == z3.unsat:
+                    self.stats["refuted_by_last_constraint"] = self.stats.get("refuted_by_last_constraint", 0) + 1
+                    return False
             self.stats["feasibility_unknown"] = self.stats.get("feasibility_unknown", 0) + 1
+            if not self._exploring:
+                # asked by an obligation as a deciding query: no verdict is neither a pass nor a failure
+                raise SolverUnknown(self.solver.reason_unknown())
+            # during exploration feasibility only prunes: keeping a path that might be infeasible is
+            # sound; the path is marked so that a panic reached on it is re-checked before it is reported
+            mark = extra if extra is not None else (pc[-1] if pc else None)
+            if mark is not None:
+                self._unknown_marks.add(mark.get_id())
             return True
         return r == z3.sat
 
@@ -621,6 +643,14 @@ class Executor:
             return I(x - y, s)
         if op in ("Mul", "MulUnchecked"):
             return I(x * y, s)
+        if op in ("Div", "Rem") and not s and z3.is_bv_value(y):
+            # unsigned division / remainder by a constant power of two: the same function as a shift / mask, far cheaper to bit-blast
+            c = y.as_long()
+            if c > 0 and c & (c - 1) == 0:
+                k = c.bit_length() - 1
+                if op == "Div":
+                    return I(z3.LShR(x, z3.BitVecVal(k, w)), s)
+                return I(x & z3.BitVecVal(c - 1, w), s)
         if op == "Div":
             return I(x / y if s else z3.UDiv(x, y), s)
         if op == "Rem":
@@ -871,22 +901,48 @@ class Executor:
         st.frames.append(fr)
         outcomes = []
         work = [st]
-        while work:
-            s = work.pop()
-            if self.stats["paths"] >= self.max_paths:
-                outcomes.append(Outcome("path-limit", s))
-                break
-            try:
-                more = self.run_path(s, outcomes)
-                work.extend(more)
-            except Unsupported as e:
-                self.stats["unsupported"] += 1
-                where = ""
-                if s.frames:
-                    where = " @ %s:%s" % (s.frames[-1].body.name.split("::")[-1], s.frames[-1].bb)
-                outcomes.append(Outcome("unsupported", s, info=str(e) + where))
-                self.stats["paths"] += 1
+        self._exploring += 1
+        try:
+            while work:
+                s = work.pop()
+                if self.stats["paths"] >= self.max_paths:
+                    outcomes.append(Outcome("path-limit", s))
+                    break
+                try:
+                    more = self.run_path(s, outcomes)
+                    work.extend(more)
+                except Unsupported as e:
+                    self.stats["unsupported"] += 1
+                    where = ""
+                    if s.frames:
+                        where = " @ %s:%s" % (s.frames[-1].body.name.split("::")[-1], s.frames[-1].bb)
+                    outcomes.append(Outcome("unsupported", s, info=str(e) + where))
+                    self.stats["paths"] += 1
+        finally:
+            self._exploring -= 1
+        if self._unknown_marks and not self._exploring:
+            outcomes = self._recheck_panics(outcomes)
         return outcomes
+
+    def _recheck_panics(self, outcomes):
+        """a panic outcome whose path passed through a feasibility query the solver could not answer
+        is re-checked with a longer time limit: infeasible -> dropped; still no verdict -> reported as
+        `unsupported` (the obligation becomes undecided), never as a reachable panic"""
+        out = []
+        for o in outcomes:
+            if o.kind == "panic" and any(c.get_id() in self._unknown_marks for c in o.pc):
+                self.solver.set("timeout", 120000)
+                try:
+                    r, _ = self.model_for(o.pc)
+                finally:
+                    self.solver.set("timeout", 20000)
+                if r == z3.unsat:
+                    self.stats["panic_paths_refuted_late"] = self.stats.get("panic_paths_refuted_late", 0) + 1
+                    continue
+                if r != z3.sat:
+                    o = Outcome("unsupported", o.state, info="solver gave no verdict on the feasibility of a panic path (%s)" % o.info)
+            out.append(o)
+        return out
 
     def run_path(self, st, outcomes):
         """run one state until it ends or forks; returns list of forked states"""
@@ -1063,6 +1119,7 @@ class Executor:
             dest_ty = fr.body.locals.get(dest[1])
         for pat in self.stop_calls:
             if re.search(pat, callee):
+                st.events.append(("call", callee, args, None))
                 raise PathEnd("stopped", callee)
         if self.PANIC_RE.search(callee):
             st.events.append(("call", callee, args, None))
